@@ -50,8 +50,9 @@ def run(ctx):
             line = np.array([a + b * i for i in range(n)], dtype=float)
             if nd in line:
                 nd = float(nd - 1)
-            yl = [nd if m else float(v) for v, m in zip(line, miss)]
-            cases.append(dict(kind=kind, y=yl, nodata=nd, n=n, **params))
+            nd_lin = 32767.0 if it % 3 == 2 else nd        # a sentinel above the data (the customary int16 marker) for the line
+            yl = [nd_lin if m else float(v) for v, m in zip(line, miss)]
+            cases.append(dict(kind=kind, y=yl, nodata=nd_lin, n=n, **params))
             plan.append(("linear", len(cases) - 1, None, dict(line=[int(v) for v in line])))
             # --- offset
             y = np.clip(gen_series(rng, n, negative_ok=True), -4500, 4500)
@@ -151,6 +152,25 @@ def run(ctx):
         cases.append(dict(kind="pgu", y=[nd0 if m else float(v) for v, m in zip(y, miss)], nodata=nd0, n=n, **params))
         cases.append(dict(kind="pgu", y=[nd0 + c if m else float(v + c) for v, m in zip(y, miss)], nodata=nd0 + c, n=n, **params))
         plan.append(("offset", len(cases) - 2, len(cases) - 1, dict(c=c, family="strong envelope, large level")))
+    # (d) robust GCV on smooth seasonal curves that carry only +-1 count of jitter, near zero and lifted by +-9000: the decision whether
+    #     the residual scale is "rounding noise" must not depend on the level the series sits on
+    for it in range(24 if ctx.thorough else 10):
+        n = int(rng.integers(18, 80))
+        t = np.arange(n)
+        amp, period, phase = float(rng.choice([12, 25, 40, 80])), float(rng.uniform(12, 60)), float(rng.uniform(0, 6))
+        jitter = ((t * 7 + t // 3 + it) % 3) - 1
+        y = np.rint(amp * np.sin(2 * np.pi * t / period + phase)) + jitter
+        miss = np.zeros(n, dtype=bool)
+        miss[rng.choice(np.arange(2, n - 2), size=int(rng.integers(0, 4)), replace=False)] = True
+        c = int(rng.choice([-9000, 9000]))
+        nd0 = -3000.0 if c > 0 else 3000.0
+        kind = ["wcv", "wcvp"][it % 2]
+        params = dict(llas=[float(v) for v in np.arange(-1.8, 4.2, 0.2)], robust=True)
+        if kind == "wcvp":
+            params["p"] = float(rng.choice([0.9, 0.7]))
+        cases.append(dict(kind=kind, y=[nd0 if m else float(v) for v, m in zip(y, miss)], nodata=nd0, n=n, **params))
+        cases.append(dict(kind=kind, y=[nd0 + c if m else float(v + c) for v, m in zip(y, miss)], nodata=nd0 + c, n=n, **params))
+        plan.append(("offset", len(cases) - 2, len(cases) - 1, dict(c=c, family="robust, smooth with +-1 jitter, large level")))
     # the listed finding C06-extreme-envelope-offset: its witness, run on every pass (reported as KNOWN-FINDING while it fails)
     findings = core.load_findings("C06")
     for f in findings:
